@@ -36,6 +36,12 @@ CLAIMED = {
         "Draws are random (seeded through an LD_PRELOAD entropy shim when a C compiler is present); the generated JSON is the stored witness.",
         "DESIGN.md section 3, C15",
     ),
+    "C16": (
+        "runtime monitor: reference tokeniser vs field map; offline check of recorded tracker call/return histories against a sequential model; conservation check of sequence splitting",
+        "Exploration: block-4 texts of all corpus messages and their structural mutants are tokenised by the library and by the reference tokeniser (occurrences, documented tag normalisation, content, strictly increasing stamps); thousands of short random histories of the consumption API are recorded at the call boundary and checked (each occurrence at most once, input order, allowed variants only, drain returns the rest exactly once); every sequence configuration is checked for A+B+C = input.",
+        "Trusted: reference tokeniser; the restated normalisation rule tolerates both spellings where the documentation is silent.",
+        "DESIGN.md section 3, C16",
+    ),
     "C07": (
         "runtime monitor: catch_unwind + panic-hook over all public entry points on hostile/mutated inputs; CPU-time size ramps",
         "Exploration: every public parse / validate / serialise / JSON / error-rendering entry point is executed under a panic monitor on corpus-derived, systematically and randomly mutated inputs (non-ASCII, truncation, structure characters, size ramps); held = no panic/timeout outside the listed known findings on the executions observed.",
